@@ -124,6 +124,12 @@ def build_ops(fa):
         return fo.getvalue()
     cbytes = cw()
     ops["container_write"] = cw
+
+    def cw_null():
+        fo = io.BytesIO()
+        fa.writer(fo, ITEM_X, [{"first": {"v": 1}, "second": {"v": 2}}] * 3, codec="null", sync_marker=b"fedcba9876543210", sync_interval=10)
+        return fo.getvalue()
+    ops["container_write_other"] = cw_null
     ops["container_read"] = lambda: list(fa.reader(io.BytesIO(cbytes)))
     return ops
 
@@ -137,7 +143,7 @@ PAIRS = [("read_dec5", "read_dec20"), ("read_dec20", "read_dec5"), ("write_share
          ("read_shared", "read_shared3"), ("validate_shared", "validate_shared3"), ("container_write", "container_write"),
          ("container_read", "container_read"), ("write_fdec_a", "write_fdec_a"), ("read_dec5", "read_dec5"),
          ("resolve_shared", "resolve_shared3"), ("resolve_shared3", "resolve_shared"), ("write_shared", "write_many_schemas"),
-         ("read_shared", "write_many_schemas")]
+         ("read_shared", "write_many_schemas"), ("container_write", "container_write_other"), ("container_write_other", "container_write")]
 
 
 def outcome(fn):
